@@ -655,6 +655,28 @@ func (g *gen) contract(idx int) ([]byte, []Action) {
 		a.Op(vm.STOP)
 		plan = append(plan, Action{"STOP", nil})
 	}
+	if g.chance(30) {
+		// dead bytes behind the program that the jump-destination analysis still scans: padding to every
+		// alignment of the code length modulo 8, ending in a PUSHn whose data is cut short by the end of the code
+		a.Op(vm.STOP)
+		want := g.pick(8) // len(code) % 8 after the tail
+		short := 0        // data bytes of the final push that are present (0 = the opcode is the last byte)
+		if g.chance(40) {
+			short = g.pick(4)
+		}
+		for (len(a.B)+1+short)%8 != want {
+			a.Op(vm.JUMPDEST)
+		}
+		pushOp := byte(vm.PUSH1) + byte(g.pick(32))
+		if g.chance(50) {
+			pushOp = byte(vm.PUSH32)
+		}
+		a.B = append(a.B, pushOp)
+		for i := 0; i < short; i++ {
+			a.B = append(a.B, 0x5b)
+		}
+		plan = append(plan, Action{"TAIL", []string{fmt.Sprintf("len%%8=%d", len(a.B)%8), fmt.Sprintf("push%d", int(pushOp)-int(vm.PUSH1)+1), fmt.Sprintf("data-bytes-present=%d", short)}})
+	}
 	return a.B, plan
 }
 
@@ -789,7 +811,51 @@ func GenCase(r *rand.Rand, id int, o GenOpts) *Case {
 	default:
 		c.Access = "none"
 	}
+	if o.Focus == "tails" {
+		tailCase(c, id)
+	}
 	return c
+}
+
+// TailCases is the size of the enumerated family of Focus "tails".
+const TailCases = 8 * 32 * 4 * 2
+
+// tailCase turns c into case id of an enumerated family (no PRNG): the message calls C0, whose code is
+//
+//	PUSH1 dest; JUMP | PUSH1 1; PUSH1 dest; JUMPI        (the jump makes the interpreter analyse the code)
+//	JUMPDEST; STOP; padding ...; PUSHn [k of its n data bytes]
+//
+// for every code length modulo 8, every PUSH1..PUSH32 as the last instruction and 0..3 of its data bytes
+// present: the jump-destination analysis has to cope with push data that runs past the end of the code.
+func tailCase(c *Case, id int) {
+	id %= TailCases
+	mod8, n, present, jumpi := id%8, 1+(id/8)%32, (id/256)%4, (id/1024)%2 == 1
+	if present >= n {
+		present = n - 1
+	}
+	a := new(Asm)
+	if jumpi {
+		a.Push(1).Push(5).Op(vm.JUMPI) // 60 01 60 05 57 -> JUMPDEST at 5
+	} else {
+		a.Push(3).Op(vm.JUMP) // 60 03 56 -> JUMPDEST at 3
+	}
+	a.Op(vm.JUMPDEST, vm.STOP)
+	for (len(a.B)+1+present)%8 != mod8 {
+		a.Op(vm.STOP)
+	}
+	a.B = append(a.B, byte(vm.PUSH1)+byte(n-1))
+	for i := 0; i < present; i++ {
+		a.B = append(a.B, 0x5b)
+	}
+	c.codes[0] = a.B
+	c.Codes["C0"] = fmt.Sprintf("%x", a.B)
+	c.Plan["C0"] = []Action{{"TAIL-ENUM", []string{fmt.Sprintf("len%%8=%d", mod8), fmt.Sprintf("push%d", n), fmt.Sprintf("data-bytes-present=%d", present), fmt.Sprintf("jumpi=%v", jumpi)}}}
+	t := ContractAddr(0)
+	c.to, c.To = &t, t.Hex()
+	c.InboundETX = false
+	c.value, c.Value = big.NewInt(0), "0"
+	c.data, c.Data = nil, ""
+	c.Gas = 2000000 // above the intrinsic gas of the largest access list
 }
 
 // AllAddrs is the enumerable account universe (plus whatever an execution creates).
